@@ -542,6 +542,26 @@ func DocStream(rng *RNG, n int, f func(kind string, doc []byte)) {
 			k++
 			continue
 		}
+		if rng.Chance(2) { // unclosed brackets about one label-length limit (999) apart, then a closing bracket
+			f("longbracket", GenLongBrackets(rng))
+			k++
+			continue
+		}
+		if rng.Chance(2) { // DEEP inline nesting: images in images in a link text, emphasis in emphasis, brackets in brackets
+			f("deepinline", GenDeepInline(rng))
+			k++
+			continue
+		}
+		if rng.Chance(2) { // named character references: a run of the table's names in text, titles, alt text, info strings
+			f("entities", GenEntityDoc(rng))
+			k++
+			continue
+		}
+		if rng.Chance(2) { // a dangerous scheme together with the marker of an allowed one somewhere in the same URL
+			f("mixedurl", GenMixedURLDoc(rng))
+			k++
+			continue
+		}
 		if rng.Chance(2) { // a byte-order mark in front of an otherwise ordinary document
 			f("bom", append([]byte("\xef\xbb\xbf"), GenDoc(rng)...))
 			k++
@@ -797,4 +817,129 @@ func convertWithExtGFMOpts(src []byte, xhtml bool) []byte {
 		return []byte("ERROR: " + err.Error())
 	}
 	return b.Bytes()
+}
+
+
+// GenDeepInline: inline constructs nested 8..60 deep, each level with text in front of the nested one (work that doubles
+// per level, or a recursion per level, shows as a timeout): images in the text of a link, links in image descriptions,
+// emphasis, plain brackets, code-span-like backtick runs.
+func GenDeepInline(rng *RNG) []byte {
+	depth := 8 + rng.Intn(20)
+	if rng.Chance(30) {
+		depth = 30 + rng.Intn(31)
+	}
+	var open, close string
+	switch rng.Intn(6) {
+	case 0:
+		open, close = "![a ", "](u)"
+	case 1:
+		open, close = "![a *b* ", "](u \"t\")"
+	case 2:
+		open, close = "[a ", "]"
+	case 3:
+		open, close = "*a _b ", "_ c*"
+	case 4:
+		open, close = "[a ![b ", "](u)](v)"
+	default:
+		open, close = "![", "][r]"
+	}
+	var sb strings.Builder
+	if rng.Bool() {
+		sb.WriteString("[")
+	}
+	for i := 0; i < depth; i++ {
+		sb.WriteString(open)
+	}
+	sb.WriteString("x")
+	for i := 0; i < depth; i++ {
+		sb.WriteString(close)
+	}
+	sb.WriteString("](v)\n\n[r]: /r\n")
+	return []byte(sb.String())
+}
+
+var entityNameList []string
+
+// GenEntityDoc: 20..60 names of the HTML5 entity table (read from the tree under test) as references in a paragraph, a
+// link title, an image description, a fenced-code info string and a heading; every name is reached within a few hundred documents.
+func GenEntityDoc(rng *RNG) []byte {
+	if entityNameList == nil {
+		entityNameList = loadEntityNames()
+	}
+	if len(entityNameList) == 0 {
+		return []byte("&amp;&lt;&nvlt;&nvgt;&quot;\n")
+	}
+	n := 20 + rng.Intn(41)
+	start := rng.Intn(len(entityNameList))
+	var refs []string
+	for i := 0; i < n; i++ {
+		refs = append(refs, "&"+entityNameList[(start+i)%len(entityNameList)]+";")
+	}
+	j := strings.Join
+	third := n / 3
+	return []byte("a " + j(refs[:third], " b") + "\n\n[l](/u \"" + j(refs[third:2*third], "") + "\") ![" + j(refs[2*third:], "x") + "](/i)\n\n```" + j(refs[:3], "") + "\nc\n```\n\n# " + j(refs[third:third+4], " ") + "\n")
+}
+
+func loadEntityNames() []string {
+	b, err := os.ReadFile(filepath.Join(goldmarkDir(), "_tools", "html5entities.json"))
+	if err != nil {
+		return nil
+	}
+	var m map[string]json.RawMessage
+	if json.Unmarshal(b, &m) != nil {
+		return nil
+	}
+	var names []string
+	for k := range m {
+		k = strings.TrimSuffix(strings.TrimPrefix(k, "&"), ";")
+		if k != "" {
+			names = append(names, k)
+		}
+	}
+	sort.Strings(names)
+	return names
+}
+
+// GenMixedURLDoc: destinations that carry a dangerous scheme AND, further right, the text that marks an allowed one
+// (an allow-list test that is not anchored at the start lets them through), in every URL-bearing construct.
+func GenMixedURLDoc(rng *RNG) []byte {
+	bad := []string{"javascript:alert(1)", "JaVaScRiPt:alert(1)", "vbscript:x", "file:///etc/passwd", "data:text/html,x", "data:text/html;base64,PHNjcmlwdD4="}
+	ok := []string{"data:image/png;", "data:image/gif;", "data:image/jpeg;", "data:image/webp;", "data:image/svg+xml;", "http://a/", "https://a/", "mailto:a@b"}
+	sep := []string{"//", "?", "#", ";", ",", "/", "%20"}
+	u := bad[rng.Intn(len(bad))] + sep[rng.Intn(len(sep))] + ok[rng.Intn(len(ok))] + []string{"", "x", "base64,AA=="}[rng.Intn(3)]
+	switch rng.Intn(5) {
+	case 0:
+		return []byte("[a](" + u + ")\n")
+	case 1:
+		return []byte("![a](" + u + " \"t\")\n")
+	case 2:
+		return []byte("<" + u + ">\n")
+	case 3:
+		return []byte("[a][r]\n\n[r]: " + u + "\n")
+	}
+	return []byte("[a](<" + u + ">) ![b][r]\n\n[r]: <" + u + "> 't'\n")
+}
+
+
+// GenLongBrackets: two to four unclosed `[` whose distances straddle the 999-byte label limit of the link parser (the
+// parser gives up on an opener that is too far back: what it leaves behind must still be plain text), then `]`,
+// optionally an inline destination or a reference label, in one paragraph of one or several lines.
+func GenLongBrackets(rng *RNG) []byte {
+	var sb strings.Builder
+	n := 2 + rng.Intn(3)
+	for i := 0; i < n; i++ {
+		sb.WriteString([]string{"[", "![", "[", "*["}[rng.Intn(4)])
+		gap := []int{3, 40, 990, 996, 997, 998, 999, 1000, 1001, 1010, 1500}[rng.Intn(11)]
+		for j := 0; j < gap; j++ {
+			if rng.Chance(2) {
+				sb.WriteByte('\n')
+			} else {
+				sb.WriteByte(byte('a' + j%3))
+			}
+		}
+	}
+	sb.WriteString("]")
+	sb.WriteString([]string{"", "(u)", "[r]", "[]", "] x ]"}[rng.Intn(5)])
+	sb.WriteString("\n\n[r]: /r\n")
+	return []byte(sb.String())
 }
